@@ -3,7 +3,7 @@ SPECIFICATION SimSpec
 CONSTANTS
   MaxCalls = 3
   MemoAlways = FALSE
-  TopoIds = {"line3", "line4r", "line2s", "line3m", "rect32", "rect32r", "rect22m"}
+  TopoIds = {"line3", "line4r", "line2s", "line4m", "rect32", "rect32r", "rect33m"}
   NTargetSets = 5
 INVARIANT ImageOK
 INVARIANT PickedContains
